@@ -81,18 +81,34 @@ theorem wrap16_zero : wrap16 0 = 0 := by decide
 
 set_option hygiene false in
 local macro "ndp_case " p:term:max q:term:max : tactic => `(tactic| (
+    obtain ⟨a1, a2, _⟩ := tdiv_tmod_spec maxI64 $p (by decide)
+    have a2 := a2 (by decide)
+    obtain ⟨b1, _, b3⟩ := tdiv_tmod_spec minI64 $p (by decide)
+    have b3 := b3 (by decide)
+    generalize Int.tdiv maxI64 $p = qa at *
+    generalize Int.tmod maxI64 $p = ra at *
+    generalize Int.tdiv minI64 $p = qb at *
+    generalize Int.tmod minI64 $p = rb at *
     unfold InI64 minI64 maxI64 at hi
-    have hs' := hs
-    unfold InI64 minI64 maxI64 at hs'
-    rw [wrap_of_inI64 hs, if_neg (by simp <;> omega), if_neg (by simp <;> omega), wrap16_zero,
-      newDecimal_exact (i * $p) 0 (by omega) (by omega)]
-    have : i * $p * 10000 + 0 = i * $q := by omega
-    rw [this]))
+    unfold maxI64 at a1
+    unfold minI64 at b1
+    by_cases h1 : i > qa
+    · rw [if_pos h1, if_neg (by unfold InI64 minI64 maxI64; omega)]
+    · rw [if_neg h1]
+      by_cases h2 : i < qb
+      · rw [if_pos h2, if_neg (by unfold InI64 minI64 maxI64; omega)]
+      · rw [if_neg h2]
+        have hs : InI64 (i * $p) := by unfold InI64 minI64 maxI64; omega
+        rw [wrap_of_inI64 hs, wrap16_zero, newDecimal_exact (i * $p) 0 (by omega) (by omega)]
+        have : i * $p * 10000 + 0 = i * $q := by omega
+        rw [this]))
 
-theorem newDecimal_mul_aux (i P Q : Int) (hi : InI64 i) (hs : InI64 (i * P))
+/-- positive exponents: the guard `i > MaxInt64/P`, `i < MinInt64/P` (truncated division) is exact, the product
+    never wraps, and the result is the exact value or an error -/
+theorem newDecimal_mul_aux (i P Q : Int) (hi : InI64 i)
     (h : (P = 10 ∧ Q = 100000) ∨ (P = 100 ∧ Q = 1000000) ∨ (P = 1000 ∧ Q = 10000000) ∨ (P = 10000 ∧ Q = 100000000) ∨ (P = 100000 ∧ Q = 1000000000) ∨ (P = 1000000 ∧ Q = 10000000000) ∨ (P = 10000000 ∧ Q = 100000000000) ∨ (P = 100000000 ∧ Q = 1000000000000) ∨ (P = 1000000000 ∧ Q = 10000000000000) ∨ (P = 10000000000 ∧ Q = 100000000000000) ∨ (P = 100000000000 ∧ Q = 1000000000000000) ∨ (P = 1000000000000 ∧ Q = 10000000000000000) ∨ (P = 10000000000000 ∧ Q = 100000000000000000) ∨ (P = 100000000000000 ∧ Q = 1000000000000000000)) :
-    (if (decide (i > 0) && decide (wrap (i * P) < i)) = true then Except.error Err.extDecimal
-     else if (decide (i < 0) && decide (wrap (i * P) > i)) = true then Except.error Err.extDecimal
+    (if i > Int.tdiv maxI64 P then Except.error Err.extDecimal
+     else if i < Int.tdiv minI64 P then Except.error Err.extDecimal
      else newDecimal (wrap (i * P)) (wrap16 0)) =
       if InI64 (i * Q) then .ok (i * Q) else .error .extDecimal := by
   rcases h with ⟨rfl, rfl⟩ | ⟨rfl, rfl⟩ | ⟨rfl, rfl⟩ | ⟨rfl, rfl⟩ | ⟨rfl, rfl⟩ | ⟨rfl, rfl⟩ | ⟨rfl, rfl⟩ | ⟨rfl, rfl⟩ | ⟨rfl, rfl⟩ | ⟨rfl, rfl⟩ | ⟨rfl, rfl⟩ | ⟨rfl, rfl⟩ | ⟨rfl, rfl⟩ | ⟨rfl, rfl⟩
@@ -111,8 +127,8 @@ theorem newDecimal_mul_aux (i P Q : Int) (hi : InI64 i) (hs : InI64 (i * P))
   · ndp_case 10000000000000 100000000000000000
   · ndp_case 100000000000000 1000000000000000000
 
-/-- positive exponents on the sound sub-domain (the product `i·10^e` itself fits in `int64`) -/
-theorem newDecimalExp_pos (i : Int) (hi : InI64 i) (e : Int) (he : 1 ≤ e ∧ e ≤ 14) (hs : InI64 (i * 10 ^ e.toNat)) :
+/-- positive exponents: exact for every `int64` mantissa -/
+theorem newDecimalExp_pos (i : Int) (hi : InI64 i) (e : Int) (he : 1 ≤ e ∧ e ≤ 14) :
     newDecimalExp i e =
       if InI64 (i * 10 ^ (e + 4).toNat) then .ok (i * 10 ^ (e + 4).toNat) else .error .extDecimal := by
   have hcases : e = 1 ∨ e = 2 ∨ e = 3 ∨ e = 4 ∨ e = 5 ∨ e = 6 ∨ e = 7 ∨ e = 8 ∨ e = 9 ∨ e = 10 ∨ e = 11 ∨ e = 12 ∨ e = 13 ∨ e = 14 := by omega
@@ -120,7 +136,7 @@ theorem newDecimalExp_pos (i : Int) (hi : InI64 i) (e : Int) (he : 1 ≤ e ∧ e
   all_goals
     unfold newDecimalExp
     rw [if_neg (by decide), if_neg (by decide)]
-    simp only [Int.reduceAdd, Int.reduceToNat, Int.reducePow] at hs ⊢
-    exact newDecimal_mul_aux i _ _ hi hs (by simp)
+    simp only [Int.reduceAdd, Int.reduceToNat, Int.reducePow]
+    exact newDecimal_mul_aux i _ _ hi (by simp)
 
 end CedarGo.Scalars
